@@ -1102,23 +1102,28 @@ def diff_transcripts(a, b):
 
 def make_archives(ctx, built, workdir, r, thin=False):
     """Groups some non-main objects into archives (consecutive runs, keeping link order). Returns
-    the input list for inputs_override. Every unit is referenced from main, so every member is
-    extracted; the first object (main) always stays a plain object."""
-    objs = [b.obj for b in built]
-    out = [objs[0]]
+    the input list for inputs_override. Every archived unit is referenced from main (which stays a
+    plain first object), so every member is extracted by single-pass archive semantics; the asm unit
+    `as` is only referenced by the later unit `asg` and therefore always stays a plain object."""
+    out = [built[0].obj]
     i = 1
     k = 0
-    while i < len(objs):
+    while i < len(built):
         n = r.randint(1, 3)
-        grp = objs[i:i + n]
-        if len(grp) > 1 or r.random() < 0.3:
+        grp = []
+        while i < len(built) and len(grp) < n and built[i].unit.name != "as":
+            grp.append(built[i].obj)
+            i += 1
+        if len(grp) > 1 or (grp and r.random() < 0.3):
             a = os.path.join(workdir, f"libg{k}.a")
             tools.make_archive(a, grp, thin=thin)
             out.append(a)
             k += 1
         else:
             out += grp
-        i += n
+        if i < len(built) and built[i].unit.name == "as":
+            out.append(built[i].obj)
+            i += 1
     return out
 
 
